@@ -9,9 +9,11 @@ import (
 	"math"
 	"os"
 	"path/filepath"
+	"strings"
 
 	ad "github.com/pbenner/autodiff"
 	st "github.com/pbenner/autodiff/statistics"
+	gn "github.com/pbenner/autodiff/statistics/generic"
 	md "github.com/pbenner/autodiff/statistics/matrixDistribution"
 	sd "github.com/pbenner/autodiff/statistics/scalarDistribution"
 	vd "github.com/pbenner/autodiff/statistics/vectorDistribution"
@@ -35,6 +37,179 @@ type dist struct {
 	name string
 	kind string // scalar | vector | matrix
 	d    st.ConfigurableDistribution
+	// matrix densities: shape of a probe point (rows, columns); spd: the
+	// density is defined on symmetric positive definite matrices
+	shape [2]int
+	spd   bool
+	// relative tolerance on the numbers of the configuration (0: 1e-12)
+	tol float64
+	// families that are no scalar / vector / matrix density and therefore in
+	// no registry: imported into a fresh object of their type
+	direct func(cfg st.ConfigDistribution) (st.ConfigurableDistribution, error)
+}
+
+// miid: rows x n matrix density of independent rows (the constructor wants the
+// number of rows to be a multiple of the row dimension)
+func miid(t *core.Tape, n, mult int) (st.MatrixPdf, int) {
+	d, err := md.NewVectorIid(vnormal(t, n), n*mult)
+	if err != nil {
+		panic(err)
+	}
+	return d, n * mult
+}
+
+// stateMapFor draws a state map for m states with contiguously numbered emissions
+func stateMapFor(t *core.Tape, m int) ([]int, int) {
+	stateMap := make([]int, m)
+	nem := 1
+	for i := 1; i < m; i++ {
+		stateMap[i] = t.Choose(nem + 1)
+		if stateMap[i] == nem {
+			nem++
+		}
+	}
+	return stateMap, nem
+}
+
+// hmmTree draws a tree over m states: flat (one leaf per block) or nested
+func hmmTree(t *core.Tape, m int) (gn.HmmNode, string) {
+	// blocks of consecutive states
+	cuts := []int{0}
+	for i := 1; i < m; i++ {
+		if t.Bool(1, 2) {
+			cuts = append(cuts, i)
+		}
+	}
+	cuts = append(cuts, m)
+	leaves := []gn.HmmNode{}
+	for i := 0; i+1 < len(cuts); i++ {
+		leaves = append(leaves, gn.NewHmmLeaf(cuts[i], cuts[i+1]))
+	}
+	if len(leaves) >= 3 && t.Bool(1, 2) {
+		// nested: ((first, second), rest...)
+		inner := gn.NewHmmNode(leaves[0], leaves[1])
+		return gn.NewHmmNode(append([]gn.HmmNode{inner}, leaves[2:]...)...), fmt.Sprintf("nested tree over blocks %v", cuts)
+	}
+	if len(leaves) == 1 && t.Bool(1, 2) {
+		return leaves[0], fmt.Sprintf("single leaf %v", cuts)
+	}
+	return gn.NewHmmNode(leaves...), fmt.Sprintf("flat tree over blocks %v", cuts)
+}
+
+func vnormal(t *core.Tape, n int) st.VectorPdf {
+	mu := ad.NullDenseReal64Vector(n)
+	for j := 0; j < n; j++ {
+		mu.At(j).Set(anyv(t))
+	}
+	d, err := vd.NewNormalDistribution(mu, spdMatrix(t, n))
+	if err != nil {
+		panic(err)
+	}
+	return d
+}
+
+func genMatrixPdf(t *core.Tape) *dist {
+	n := t.Range(1, 2) // columns: dimension of the vector emissions
+	switch k := t.Choose(9); k {
+	case 7:
+		m := t.Range(2, 3)
+		stateMap, nem := stateMapFor(t, m)
+		ed := make([]st.VectorPdf, nem)
+		for i := range ed {
+			ed[i] = vnormal(t, n)
+		}
+		cons := []gn.EqualityConstraint{}
+		if t.Bool(2, 3) {
+			i1, j1, i2, j2 := t.Choose(m), t.Choose(m), t.Choose(m), t.Choose(m)
+			if i1 != i2 || j1 != j2 {
+				cons = append(cons, gn.EqualityConstraint{{i1, j1}, {i2, j2}})
+			}
+		}
+		if d, err := md.NewConstrainedHmm(weights(t, m), stochastic(t, m), stateMap, ed, cons); err == nil {
+			return &dist{name: fmt.Sprintf("matrix constrained hmm(states=%d,stateMap=%v,constraints=%v,normal(%d))", m, stateMap, cons, n), kind: "matrix", d: d, shape: [2]int{t.Range(1, 3), n}, tol: 1e-7}
+		}
+	case 8:
+		nn := t.Range(1, 3)
+		mu := ad.NullDenseReal64Vector(nn)
+		for j := 0; j < nn; j++ {
+			mu.At(j).Set(anyv(t))
+		}
+		nu := ad.NewScalar(rt, float64(nn)+float64(t.Range(0, 6))/2)
+		if d, err := md.NewNormalIWishartDistribution(pos(t), nu, mu, spdMatrix(t, nn)); err == nil {
+			return &dist{name: fmt.Sprintf("normal inverse wishart(nu=%g,%dx%d)", nu.GetFloat64(), nn, nn), kind: "matrix", d: d,
+				direct: func(cfg st.ConfigDistribution) (st.ConfigurableDistribution, error) {
+					r := new(md.NormalIWishartDistribution)
+					if err := r.ImportConfig(cfg, rt); err != nil {
+						return nil, err
+					}
+					return r, nil
+				}}
+		}
+	case 1:
+		rows := t.Range(1, 3)
+		ds := make([]st.VectorPdf, rows)
+		for i := range ds {
+			ds[i] = vnormal(t, n)
+		}
+		if d, err := md.NewVectorId(ds...); err == nil {
+			return &dist{name: fmt.Sprintf("matrix vector id(%d x normal(%d))", rows, n), kind: "matrix", d: d, shape: [2]int{rows, n}}
+		}
+	case 2, 6:
+		m := t.Range(1, 3)
+		stateMap, nem := stateMapFor(t, m)
+		ed := make([]st.VectorPdf, nem)
+		for i := range ed {
+			ed[i] = vnormal(t, n)
+		}
+		shape := [2]int{t.Range(1, 3), n}
+		if k == 2 {
+			if d, err := md.NewHmm(weights(t, m), stochastic(t, m), stateMap, ed); err == nil {
+				return &dist{name: fmt.Sprintf("matrix hmm(states=%d,stateMap=%v,normal(%d))", m, stateMap, n), kind: "matrix", d: d, shape: shape}
+			}
+		} else {
+			tree, tn := hmmTree(t, m)
+			if d, err := md.NewHierarchicalHmm(weights(t, m), stochastic(t, m), stateMap, ed, tree); err == nil {
+				return &dist{name: fmt.Sprintf("matrix hierarchical hmm(states=%d,stateMap=%v,%s,normal(%d))", m, stateMap, tn, n), kind: "matrix", d: d, shape: shape}
+			}
+		}
+	case 3:
+		kk := t.Range(1, 3)
+		mult := t.Range(1, 2)
+		rows := n * mult
+		ed := make([]st.MatrixPdf, kk)
+		for i := range ed {
+			ed[i], _ = miid(t, n, mult)
+		}
+		if d, err := md.NewMixture(weights(t, kk), ed); err == nil {
+			return &dist{name: fmt.Sprintf("matrix mixture(%d x vector iid(normal(%d),%d))", kk, n, rows), kind: "matrix", d: d, shape: [2]int{rows, n}}
+		}
+	case 4:
+		m := t.Range(1, 3)
+		stateMap, nem := stateMapFor(t, m)
+		mult := []int{1, 3}[t.Choose(2)]
+		rows := n * mult
+		ed := make([]st.MatrixPdf, nem)
+		for i := range ed {
+			ed[i], _ = miid(t, n, mult)
+		}
+		if d, err := md.NewShapeHmm(weights(t, m), stochastic(t, m), stateMap, ed); err == nil {
+			return &dist{name: fmt.Sprintf("shape hmm(states=%d,stateMap=%v,vector iid(normal(%d),%d))", m, stateMap, n, rows), kind: "matrix", d: d, shape: [2]int{rows + t.Range(0, 2), n}}
+		}
+	case 5:
+		nn := t.Range(1, 3)
+		nu := ad.NewScalar(rt, float64(nn)+float64(t.Range(0, 6))/2)
+		if d, err := md.NewInverseWishartDistribution(nu, spdMatrix(t, nn)); err == nil {
+			return &dist{name: fmt.Sprintf("inverse wishart(nu=%g,%dx%d)", nu.GetFloat64(), nn, nn), kind: "matrix", d: d, shape: [2]int{nn, nn}, spd: true}
+		}
+	}
+	in, nm := genVectorPdf(t, 1)
+	rows := t.Range(1, 2)
+	d, err := md.NewVectorIid(in, rows)
+	if err != nil {
+		x, nn := genScalarPdf(t, 0)
+		return &dist{name: nn, kind: "scalar", d: x}
+	}
+	return &dist{name: "matrix vector iid(" + nm + ")", kind: "matrix", d: d, shape: [2]int{rows, in.Dim()}}
 }
 
 func weights(t *core.Tape, n int) ad.Vector {
@@ -171,7 +346,7 @@ func stochastic(t *core.Tape, n int) ad.Matrix {
 }
 
 func genVectorPdf(t *core.Tape, depth int) (st.VectorPdf, string) {
-	k := t.Choose(8)
+	k := t.Choose(12)
 	if depth >= 1 && k >= 5 {
 		k = t.Choose(5)
 	}
@@ -284,6 +459,53 @@ func genVectorPdf(t *core.Tape, depth int) (st.VectorPdf, string) {
 		in, nm := genVectorPdf(t, depth+1)
 		name = "vector iid(" + nm + ")"
 		d, err = vd.NewVectorIid(in, t.Range(1, 3))
+	case 10:
+		name = fmt.Sprintf("vector t(%d)", n)
+		mu := ad.NullDenseReal64Vector(n)
+		for i := 0; i < n; i++ {
+			mu.At(i).Set(anyv(t))
+		}
+		d, err = vd.NewTDistribution(pos(t), mu, spdMatrix(t, n))
+	case 11:
+		name = fmt.Sprintf("logistic regression(%d)", n)
+		theta := ad.NullDenseReal64Vector(n + 1)
+		for i := 0; i <= n; i++ {
+			theta.At(i).Set(anyv(t))
+		}
+		d, err = vd.NewLogisticRegression(theta)
+	case 8, 9:
+		// hidden Markov models with tied transition parameters (equality
+		// constraints) or a hierarchy of state blocks
+		m := t.Range(2, 4)
+		stateMap, nem := stateMapFor(t, m)
+		ed := make([]st.ScalarPdf, nem)
+		names := ""
+		for i := range ed {
+			var nm string
+			ed[i], nm = genScalarPdf(t, 2)
+			names += nm + ","
+		}
+		if k == 8 {
+			cons := []gn.EqualityConstraint{}
+			if t.Bool(2, 3) {
+				i1, j1, i2, j2 := t.Choose(m), t.Choose(m), t.Choose(m), t.Choose(m)
+				if i1 != i2 || j1 != j2 {
+					cons = append(cons, gn.EqualityConstraint{{i1, j1}, {i2, j2}})
+				}
+			}
+			name = fmt.Sprintf("constrained hmm(states=%d,stateMap=%v,constraints=%v,%s)", m, stateMap, cons, names)
+			var h *vd.Chmm
+			if h, err = vd.NewConstrainedHmm(weights(t, m), stochastic(t, m), stateMap, ed, cons); err == nil {
+				d = h
+			}
+		} else {
+			tree, tn := hmmTree(t, m)
+			name = fmt.Sprintf("hierarchical hmm(states=%d,stateMap=%v,%s,%s)", m, stateMap, tn, names)
+			var h *vd.Hhmm
+			if h, err = vd.NewHierarchicalHmm(weights(t, m), stochastic(t, m), stateMap, ed, tree); err == nil {
+				d = h
+			}
+		}
 	case 7:
 		a, n1 := genVectorPdf(t, depth+1)
 		b, n2 := genVectorPdf(t, depth+1)
@@ -299,25 +521,28 @@ func genVectorPdf(t *core.Tape, depth int) (st.VectorPdf, string) {
 }
 
 func genDist(t *core.Tape) *dist {
-	switch t.Pick([]int{5, 4, 1}) {
+	switch t.Pick([]int{5, 4, 2}) {
 	case 0:
 		d, n := genScalarPdf(t, 0)
-		return &dist{n, "scalar", d}
+		return &dist{name: n, kind: "scalar", d: d}
 	case 1:
 		d, n := genVectorPdf(t, 0)
-		return &dist{n, "vector", d}
-	default:
-		in, n := genVectorPdf(t, 1)
-		d, err := md.NewVectorIid(in, t.Range(1, 2))
-		if err != nil {
-			x, nn := genScalarPdf(t, 0)
-			return &dist{nn, "scalar", x}
+		r := &dist{name: n, kind: "vector", d: d}
+		if strings.Contains(n, "constrained hmm") {
+			// the family's constructor (also used by the importer) normalises the
+			// tied transition parameters with a root finder that stops at 1e-8
+			r.tol = 1e-7
 		}
-		return &dist{"matrix vector iid(" + n + ")", "matrix", d}
+		return r
+	default:
+		return genMatrixPdf(t)
 	}
 }
 
 func (d *dist) importConfig(cfg st.ConfigDistribution) (st.ConfigurableDistribution, error) {
+	if d.direct != nil {
+		return d.direct(cfg)
+	}
 	switch d.kind {
 	case "scalar":
 		return st.ImportScalarPdfConfig(cfg, rt)
@@ -377,7 +602,10 @@ func sortStrings(s []string) {
 	}
 }
 
-func sameConfig(a, b st.ConfigDistribution) string {
+func sameConfig(a, b st.ConfigDistribution, tol float64) string {
+	if tol == 0 {
+		tol = 1e-12
+	}
 	n1, x1 := flat(a)
 	n2, x2 := flat(b)
 	if fmt.Sprint(n1) != fmt.Sprint(n2) {
@@ -387,7 +615,7 @@ func sameConfig(a, b st.ConfigDistribution) string {
 		return fmt.Sprintf("%d numbers became %d", len(x1), len(x2))
 	}
 	for i := range x1 {
-		if x1[i] != x2[i] && math.Abs(x1[i]-x2[i]) > 1e-12*(1+math.Abs(x1[i])) {
+		if x1[i] != x2[i] && math.Abs(x1[i]-x2[i]) > tol*(1+math.Abs(x1[i])) {
 			return fmt.Sprintf("number %d: %v became %v", i, x1[i], x2[i])
 		}
 	}
@@ -455,7 +683,8 @@ func (w *simWriter) Write(p []byte) (int, error) {
 // probeDensity evaluates both distributions at one drawn point and renders
 // the outcomes ("-1.234", "error", "panic"); values within 1e-9 are rendered
 // identically.
-func probeDensity(t *core.Tape, x, y interface{}) (string, string, string) {
+func probeDensity(t *core.Tape, x, y interface{}, shape [2]int, spd bool, tol float64) (string, string, string) {
+	dtol := math.Max(1e-9, 100*tol)
 	val := func() float64 { return []float64{0, 1, 2, 3, 0.5, 1.5, -1, 2.5}[t.Choose(8)] }
 	render := func(f func(r ad.Scalar) error) (string, float64) {
 		r := ad.NewReal64(0)
@@ -494,7 +723,7 @@ func probeDensity(t *core.Tape, x, y interface{}) (string, string, string) {
 			}
 			return sa, sb
 		}
-		if va == vb || (math.IsNaN(va) && math.IsNaN(vb)) || math.Abs(va-vb) <= 1e-9*(1+math.Abs(va)) {
+		if va == vb || (math.IsNaN(va) && math.IsNaN(vb)) || math.Abs(va-vb) <= dtol*(1+math.Abs(va)) {
 			return "same", "same"
 		}
 		return fmt.Sprint(va), fmt.Sprint(vb)
@@ -530,6 +759,9 @@ func probeDensity(t *core.Tape, x, y interface{}) (string, string, string) {
 			return "a matrix density", fmt.Sprintf("%T", y), "-"
 		}
 		rr, cc := a.Dims()
+		if shape[0] > 0 {
+			rr, cc = shape[0], shape[1]
+		}
 		if rr <= 0 {
 			rr = t.Range(1, 3)
 		}
@@ -539,6 +771,21 @@ func probeDensity(t *core.Tape, x, y interface{}) (string, string, string) {
 		xs := make([]float64, rr*cc)
 		for i := range xs {
 			xs[i] = val()
+		}
+		if spd && rr == cc {
+			// a symmetric positive definite probe point: B B' + n I
+			b := append([]float64{}, xs...)
+			for i := 0; i < rr; i++ {
+				for j := 0; j < rr; j++ {
+					xs[i*rr+j] = 0
+					for q := 0; q < rr; q++ {
+						xs[i*rr+j] += b[i*rr+q] * b[j*rr+q]
+					}
+					if i == j {
+						xs[i*rr+j] += float64(rr)
+					}
+				}
+			}
 		}
 		v := ad.NewDenseFloat64Matrix(xs, rr, cc)
 		sa, sb := cmp(func(r ad.Scalar) error { return a.LogPdf(r, v) }, func(r ad.Scalar) error { return b.LogPdf(r, v) })
@@ -597,7 +844,7 @@ func runConfig(c *core.Ctx, faults bool) {
 		if pv, site := core.Try(func() { cfg2 = got.ExportConfig() }); pv != nil {
 			fail("round-trip", "decoded-object-unusable|"+siteClass(site)+"|"+core.PanicClass(pv), "the imported %s cannot export itself (panic in %s: %v)", d.name, site, pv)
 		}
-		if diff := sameConfig(cfg, cfg2); diff != "" {
+		if diff := sameConfig(cfg, cfg2, d.tol); diff != "" {
 			fail("round-trip", "not-equal", "%s does not survive export/import: %s; config: %s", d.name, diff, describeBytes(data))
 		}
 		// parameters agree
@@ -610,7 +857,7 @@ func runConfig(c *core.Ctx, faults bool) {
 					}
 					for i := 0; i < pa.Dim(); i++ {
 						x, y := pa.Float64At(i), pb.Float64At(i)
-						if x != y && math.Abs(x-y) > 1e-10*(1+math.Abs(x)) && !(math.IsNaN(x) && math.IsNaN(y)) {
+						if x != y && math.Abs(x-y) > math.Max(1e-10, d.tol)*(1+math.Abs(x)) && !(math.IsNaN(x) && math.IsNaN(y)) {
 							fail("round-trip", "not-equal", "%s: parameter %d = %v became %v", d.name, i, x, y)
 						}
 					}
@@ -621,7 +868,7 @@ func runConfig(c *core.Ctx, faults bool) {
 		// a configuration carries beyond its parameter vector -- state
 		// restrictions, state maps, dimensions -- shows here)
 		for k := 0; k < 4; k++ {
-			a, b, where := probeDensity(t, d.d, got)
+			a, b, where := probeDensity(t, d.d, got, d.shape, d.spd, d.tol)
 			if a != b {
 				fail("round-trip", "not-equal|density", "%s evaluates to %s at %s, after export/import to %s; config: %s", d.name, a, where, b, describeBytes(data))
 			}
@@ -782,12 +1029,14 @@ func init() {
 			{ID: "C18-F1", Run: ProbeEmptyTable},
 		},
 		StepUnit: "inputs delivered to a reader (clean or damaged)",
-		Rule: "one run = one artifact drawn by the tape (scalar of 9 mutable + 7 constant types; dense/sparse vector or matrix of 9 element types, possibly a nested Slice/T view, derivatives and Hessians attached for real types; values incl. -0, subnormals, extreme exponents, type bounds; or a distribution of ~30 families incl. nested mixtures, transforms, HMMs with tied emissions and start / final state restrictions, id / iid wrappers, multivariate and skew normals) written by the real writer. Round-trip scenarios: decode(encode(x)) must be observably equal (elements, derivatives, shape, non-zero positions; for distributions the re-exported configuration, the parameter vector and the log-density at four drawn probe points). Fault scenarios: one fault family is drawn and EVERY position of it is enumerated on the artifact's bytes (all torn prefixes, bit flips, lost/duplicated bytes, zero-filled tails, duplicated blocks, splices with an older file, every number token replaced by 19 hostile tokens, lost/duplicated/swapped lines, gzip container valid/truncated at every byte/corrupt trailer/bare magic, missing file/directory/empty file; for configurations also a stream that fails at byte k and a writer whose medium fails at byte k); the reader must return an error or an object that is fully usable and survives its own round trip. Non-trivial = at least one input delivered. Distinct = distinct (artifact, codec, fault family).",
+		Rule: "one run = one artifact drawn by the tape (scalar of 9 mutable + 7 constant types; dense/sparse vector or matrix of 9 element types, possibly a nested Slice/T view, derivatives and Hessians attached for real types; values incl. -0, subnormals, extreme exponents, type bounds; or a distribution of every family that has ExportConfig: 21 scalar families incl. nested mixtures and transforms; vector: normal, skew normal, t, logistic regression, scalar id / iid, vector id / iid, mixture, HMMs with tied emissions and start / final state restrictions, constrained HMM (equality constraints), hierarchical HMM (flat, nested and single-leaf trees); matrix: vector id / iid, HMM, mixture, shape HMM, constrained and hierarchical HMM, inverse Wishart, normal inverse Wishart) written by the real writer. Round-trip scenarios: decode(encode(x)) must be observably equal (elements, derivatives, shape, non-zero positions; for distributions the re-exported configuration, the parameter vector and the log-density at four drawn probe points). Fault scenarios: one fault family is drawn and EVERY position of it is enumerated on the artifact's bytes (all torn prefixes, bit flips, lost/duplicated bytes, zero-filled tails, duplicated blocks, splices with an older file, every number token replaced by 19 hostile tokens, lost/duplicated/swapped lines, gzip container valid/truncated at every byte/corrupt trailer/bare magic, missing file/directory/empty file; for configurations also a stream that fails at byte k and a writer whose medium fails at byte k); the reader must return an error or an object that is fully usable and survives its own round trip. Non-trivial = at least one input delivered. Distinct = distinct (artifact, codec, fault family).",
 		Assumptions: []string{
 			"a torn or damaged dense table that is still a well-formed shorter/other table is accepted: the format has no checksum and the oracle does not invent one",
 			"sparse containers are not required to preserve the sign of zero",
 			"int and int64 values are drawn up to 2^53 (the table and JSON readers parse through float64)",
-			"distribution parameters may change by 1e-12 relative through log/exp re-parametrisation",
+			"distribution parameters may change by 1e-12 relative through log/exp re-parametrisation; a constrained HMM is normalised by a root finder that stops at 1e-8 (also on import), so its numbers are compared at 1e-7 and its log-densities at 1e-5 relative",
+			"the normal inverse Wishart distribution is no scalar / vector / matrix density and in no registry: it is imported into a fresh object of its type",
+			"densities of matrix families are probed at matrices of the shape the family is defined for (inverse Wishart: symmetric positive definite points)",
 			"disk-full on the path based Export is outside the property's statement; writer failure is injected on the io.Writer seam only",
 		},
 		RealCode:     []string{"MarshalJSON/UnmarshalJSON of all scalar, vector and matrix types; Export/Import incl. gzip detection; ConfigDistribution.WriteJson/ReadJson, ExportDistribution, Import{Scalar,Vector,Matrix}PdfConfig and every ImportConfig/ExportConfig reached from them"},
